@@ -858,7 +858,7 @@ func (c *c17Checker) runScenario(m *c17Module, sc c17Scenario) {
 						}
 					}
 					if rel != "" && !expectTouched[rel] {
-						viol("identical-file-rewritten", fmt.Sprintf("strace: %s on %s although the file already had the content goose produces: %s", mm[1], rel, clip(line, 300)))
+						viol("identical-file-opened-for-writing", fmt.Sprintf("strace: %s on %s although the file already had the content goose produces: %s", mm[1], rel, clip(line, 300)))
 					}
 				}
 			}
@@ -1019,7 +1019,7 @@ func runC17(r *core.Run) (bool, string) {
 	} else {
 		r.Inconclusive("strace-not-available")
 	}
-	nmods := r.Pick(3, 4)
+	nmods := r.Pick(3, 10)
 	rng := core.NewRng(r.Seed, "c17")
 	for k := 0; k < nmods; k++ {
 		mr := rng.Fork(fmt.Sprintf("module%d", k))
@@ -1061,7 +1061,20 @@ func runC17(r *core.Run) (bool, string) {
 			r.Count("modules_with_label_calibration_failure", 1)
 		}
 		scs := c.scenarios(m, mr, !r.Quick())
-		core.Parallel(len(scs), 12, func(i int) { c.runScenario(m, scs[i]) })
+		// scenarios that create a directory inside the module (relative -out) run alone: a directory that
+		// appears and disappears under the module root while other invocations walk `./...` would disturb them
+		var par, seq []c17Scenario
+		for _, sc := range scs {
+			if sc.Prior == "relative-out" {
+				seq = append(seq, sc)
+			} else {
+				par = append(par, sc)
+			}
+		}
+		core.Parallel(len(par), 12, func(i int) { c.runScenario(m, par[i]) })
+		for _, sc := range seq {
+			c.runScenario(m, sc)
+		}
 		r.Count("modules", 1)
 		r.Count("scenarios", int64(len(scs)))
 	}
